@@ -266,7 +266,9 @@ def handleCrash (c : Case) : Verdict :=
       | none =>
         let crashed := match c.find "cut" with | some r => r.getD 4 "0" == "1" | none => false
         let ft := match c.find "fault" with | some r => [s!"fault:{r.getD 1 "-"}-{r.getD 2 "-"}"] | none => []
-        .agree true (labs ++ optLabels o mu ++ ft ++ [if crashed then c.stream else "cut-beyond-end"])
+        let last := if c.stream == "forgetprune" then (if crashed then "forget-prune:one-snapshot-removal-failed" else "forget-prune:no-fault")
+          else if crashed then c.stream else "cut-beyond-end"
+        .agree true (labs ++ optLabels o mu ++ ft ++ [last])
 
 /-! ### C10: completed full prune -/
 
@@ -359,6 +361,7 @@ def handle (c : Case) : Verdict :=
   | "trace" => handleTrace c
   | "crash" => handleCrash c
   | "fault" => handleCrash c
+  | "forgetprune" => handleCrash c
   | "full" => handleFull c
   | "skip" => .agree false ["skipped:" ++ (match c.find "why" with | some r => r.getD 1 "?" | none => "?")]
   | s => .differ "protocol" ("unknown-substream-" ++ s)
